@@ -225,6 +225,67 @@ def layout_part(rep):
     rep.functions += describe(c03.G['fns']['plain'], ['export_to_string', 'generate_decl', 'generate_imports'])
 
 
+def keys_part(rep):
+    """Tier B: the inline() text of every corpus item -- names in every position the derive writes them: struct fields, fields with a
+    `type` override, renamed / rename_all'd / raw-identifier fields, struct-variant fields, variant names as keys and as literals, tag
+    and content keys -- must PARSE as a TypeScript type with the strict key rule of props/tsparse.py (identifier, numeric literal or
+    closed string literal in key position; identifier in type-name position)."""
+    from . import tyres, c07
+    from . import tsparse as TP
+    tyres.setup()
+    TG = tyres.G
+    ob = di = 0
+    cand = []
+    for name, item in TG['corpus'].items():
+        if name.startswith(('R', 'E')):          # symbolic renames: literals_part / C11
+            continue
+        ty = c07.type_text(name, item)
+        ex = Explorer()
+
+        def h(ctx):
+            r = tyres.Resolver(item['generics'])
+            m = tyres.machine(ctx, r)
+            try:
+                return ('ok', list(m.call(f'<{ty} as TS>::inline', []).cs), list(m.call(f'<{ty} as TS>::decl', []).cs))
+            except Panic as e:
+                return ('panic', str(e), None)
+        try:
+            res = ex.run(h)
+        except Unsupported as e:
+            rep.inconclusive.append(f'keys {name}: {e}')
+            continue
+        rep.absorb(dict(paths=ex.paths, nontrivial=ex.nontrivial, queries=ex.queries, solver_s=ex.solver_s))
+        for pc, (k, rope, decl) in res:
+            if k == 'panic':
+                continue            # types that cannot be inlined (by design) are not this part's subject
+            ob += 1
+            try:
+                TP.parse(rope)
+                hdr = re.match(r'^type ([^ =<]+)', tyres.show_rope(decl))
+                if not hdr or not re.fullmatch(r'[A-Za-z_$][\w$]*', hdr.group(1)):
+                    raise TP.ParseError(f'declared type name is not an identifier: {tyres.show_rope(decl)[:40]!r}')
+                di += 1
+            except TP.ParseError as e:
+                cand.append((name, str(e), tyres.show_rope(rope)))
+    if cand:
+        nat = {k_: v for k_, v in c07.native_probe(rep).items() if v[0] == 'ok'}
+        for name, why, text in cand:
+            confirmed = None
+            if (name, 'inline') in nat:
+                try:
+                    TP.parse([ord(c) for c in nat[name, 'inline'][1]])
+                    confirmed = False
+                except TP.ParseError:
+                    confirmed = True
+            if confirmed is False:
+                rep.inconclusive.append(f'engine finding does not reproduce natively: keys {name}: {why}')
+            else:
+                rep.violations.append({'what': f'{TG["corpus"][name]["src"]}: inline() is not well-formed TypeScript: {why} [{text}]',
+                                       'witness': {'item': name, 'text': text, 'native': nat.get((name, 'inline'))}, 'key': f'keys/{name}'})
+    rep.absorb(dict(obligations=ob, discharged=di))
+    rep.part('names in every derive position parse as TypeScript (tier B corpus)', obligations=ob)
+
+
 def literals_part(rep, quick):
     """Tier B: string literals the derive builds from names (variant names under every tagging, with the name a symbolic string):
     each must be a closed literal that decodes to the name. The derive interpolates them unescaped -> known finding F15."""
@@ -339,6 +400,7 @@ def main():
             rep.inconclusive.append(f'{part.__name__}: {e}')
     try:
         literals_part(rep, quick)
+        keys_part(rep)
     except Unsupported as e:
         rep.inconclusive.append(f'literals_part: {e}')
     NA, NU = (4, 3) if quick else (6, 4)
